@@ -434,9 +434,9 @@ class Run:
         self.on_refuted = None
         self.cur_args = None
         from .lib import FLOAT_AXIOMS
-        from .sym import div_axioms, ABSTRACT_NL
-        ABSTRACT_NL[0] = not shape_mode
-        self.lib_axioms = list(FLOAT_AXIOMS) + ([] if shape_mode else div_axioms())
+        from .sym import div_axioms, mul_axioms, ABSTRACT_NL
+        ABSTRACT_NL[0] = (not shape_mode) and getattr(C, "abstract_nl", True)
+        self.lib_axioms = list(FLOAT_AXIOMS) + (div_axioms() + mul_axioms() if ABSTRACT_NL[0] else [])
 
     def obligation(self, kind, name, line):
         oid = "%s[%s]:%s.%s" % (self.C.short, self.case_label(), kind, name)
@@ -545,6 +545,8 @@ def explore(run, on_path=None, max_paths=4000):
             else:
                 e = value
                 allowed = [when(old) for cls, when in C.raises if exc_matches(e.cls, cls)]
+                if any(exc_matches(e.cls, m) for m in C.may_raise):
+                    allowed.append(True)
                 f = Or(*allowed) if allowed else False
                 ctx.oblige("raises.allowed" if allowed else "safe", "%s@L%s" % (e.cls, getattr(e.node, "lineno", "?")), f, e.node)
             results.append((ctx, outcome, args, value))
